@@ -7,7 +7,7 @@ emission engine (E6); whether a given chunk fits the buffer is left to the rollb
 """
 from .framework import body_loc
 from .interp import shape, tree_leaf, variant_at, PathLimit, Unsupported, TOP
-from .tables import ref
+from .tables import ref, mk_interp
 from .rules_c02 import _mk
 from .rules_bodies import CALL, IN, OUT, _report_obligations
 from . import emit
@@ -238,27 +238,50 @@ def _terminator_succeeded(st):
 
 
 def rule_increment(ctx):
-    """R03.4b / R01.4: input_used advances only under the success edge, by the chunk's n"""
+    """R03.4b / R01.4: the consumed-input counter advances exactly when the chunk was written completely, and by the chunk's
+    own length -- decided on the abstract paths of the chunk writer (wherever its pieces live: closures, helpers)"""
     R = "R03.4"
     prog = ctx.prog
-    wc = None
-    for b in prog.nonderived_bodies():
-        if b.kind != "Closure" and any("saturating_sub" in (short_ or "") for short_ in [__import__("analysis.mir", fromlist=["callee_path"]).callee_path(t) or "" for _, t in b.calls()]):
-            wc = b
-    if not ctx.require(wc, R, "chunk-writer", "chunk writer (function computing the chunk size with saturating_sub)"):
+    wc = prog.find("write_chunk")
+    if not ctx.require(wc, R, "chunk-writer", "chunk writer (write_chunk)"):
         return
-    from .mir import callee_path, short
-    inc = [bb for bb, blk in enumerate(wc.blocks) for s in blk["stmts"]
-           if s["k"] == "assign" and any(e["k"] == "deref" for e in s["place"]["proj"]) and 1 <= s["place"]["local"] <= wc.arg_count]
-    sw = None
-    for bb, t in wc.calls():
-        if short(callee_path(t) or "").endswith("try_write"):
-            tt = wc.blocks[t["target"]]["term"]
-            if tt["k"] == "switch":
-                sw = ([tb for v, tb in tt["targets"] if int(v) == 0], tt["otherwise"])
-    dom = wc.dominators()
-    ok = bool(inc) and sw is not None and all(sw[1] in dom.get(b, set()) for b in inc)
-    ctx.check(ok, R, "consumed-on-success", "the consumed-input counter advances only under the success edge of the chunk's try_write", loc=body_loc(wc))
+    from .emit import emission_hook
+    I = mk_interp(prog, event_hook=emission_hook())
+    INP, USED, WR = ("OBJ", "input"), ("OBJ", "used"), ("OBJ", "w")
+    used0 = ("term", ("in", "used"))
+
+    def init(st):
+        st.write_leaf(INP, (), ("term", ("in", "input")))
+        st.write_leaf(USED, (), used0)
+        st.write_leaf(WR, (), ("term", ("in", "w")))
+    try:
+        outs = I.run(wc, [ref(INP), ref(USED), ref(WR), {(): ("term", ("in", "max"))}], init)
+    except (PathLimit, Unsupported) as e:
+        ctx.incomplete(R, "interp", str(e))
+        return
+    bad = []
+    n_ok = n_fail = 0
+    for o in outs:
+        if o.kind != "return":
+            continue
+        st = o.state
+        used = st.read_leaf(USED, ())
+        writes = [v for k, v in st.facts.items() if k[0] == "discr" and k[1][0] == "call" and k[1][1] in ("Write::write_fmt", "Write::write_all")]
+        failed = any(v == ("var", frozenset({"Err"})) for v in writes)
+        raws = [p for e in st.events if e[0] == "emit" for p in e[1] if p[0] == "raw"]
+        if failed or not writes:
+            n_fail += 1
+            if used != used0:
+                bad.append("the counter advances although the chunk was not written completely (rolled back)")
+        else:
+            n_ok += 1
+            if not (used[0] == "term" and used[1][0] == "arith" and used[1][1] == "Add" and used[1][2] == used0):
+                bad.append("after a completely written chunk the counter is %s" % repr(used)[:100])
+            elif len(raws) != 1 or raws[0][2] != used[1][3]:
+                bad.append("the counter advances by %s, the chunk carried %s bytes" % (repr(used[1][3])[:60], repr(raws[0][2])[:60] if raws else "?"))
+    ctx.check(n_ok >= 1 and n_fail >= 2 and not bad, R, "consumed-on-success",
+              "the consumed-input counter advances exactly when the chunk's all-or-nothing write succeeded, by the length of the data it carried "
+              "(%d success / %d failure paths)" % (n_ok, n_fail), loc=body_loc(wc), detail=sorted(set(bad))[:3])
 
 
 def rule_readiness(ctx):
